@@ -13,8 +13,8 @@ import itertools
 DEFAULTS = {'n': '1', 's': '"A"', 'v': 'X', 'a': 'AR(1)', 'f': '"F.TXT"', 'l': '10', 'k': '1'}
 
 NUMS = ['-32769', '-32768', '-1', '0', '1', '255', '256', '32767', '32768', '65535', '65536',
-        '1E38', '-1E38', '.5', '1D300', 'X%', 'A$']
-NUMS_QUICK = ['-32768', '-1', '0', '1', '255', '256', '32767', '65535', '65536', '1E38', 'A$']
+        '1E38', '-1E38', '.5', '1D300', '1.701411834604692D+38', 'X%', 'A$']
+NUMS_QUICK = ['-32768', '-1', '0', '1', '255', '256', '32767', '65535', '65536', '1E38', '1.701411834604692D+38', 'A$']
 STRS = ['""', '"A"', 'CHR$(0)', 'CHR$(255)', 'STRING$(255,"x")', '"A=B"', '"-1:00:00"', '"..\\X"',
         '"A="+CHR$(0)', '"A=B"+CHR$(0)+"C"', '"A"+CHR$(0)+"B=C"', '"C:\\*.*"', '"SCRN:"', '"KYBD:"', '"LPT1:"', '"COM1:"', '"CAS1:"', '1', 'B$']
 STRS_QUICK = ['""', '"A"', 'CHR$(0)', 'STRING$(255,"x")', '"A=B"', '"A="+CHR$(0)', '"A=B"+CHR$(0)+"C"', '"A"+CHR$(0)+"B=C"', '"-1:00:00"', '"..\\X"', '"SCRN:"', '1']
